@@ -103,6 +103,7 @@ class ObjcBaseType(ObjcBaseCommentModel):
 
     @computed_field
     @cached_property
+    @validate(keywords)
     def typename(self) -> str:
         return f"{self.config.type_prefix}{self.namespace}{self.decl.name.convert(self.config.identifier.type)}"
 
@@ -206,6 +207,7 @@ class ObjcRecord(ObjcBaseClassType):
         return output
 
     @cached_property
+    @validate(keywords)
     def derived_name(self) -> str:
         return f"{self.config.type_prefix}{self.namespace}{self.decl.name.convert(self.config.identifier.type)}"
 
